@@ -106,6 +106,9 @@ class Check(DiffCheck):
                     for op in ONE_ARG:
                         cs.append('%s ; %s %d' % (h, op, n))
                     cs.append('%s ; %s %d' % (h, 'trunc' if own else 'shrinklt', n))
+                    if own:
+                        for (sl, rf2) in ((0, 0), (1, 2)):
+                            cs.append('%s ; xfo %d %d %d' % (h, n, sl, rf2)); cs.append('%s ; xbo %d %d %d' % (h, n, sl, rf2))
                     for N in sorted(set([0, 1, 2, len(sh), len(sh) + 1])):
                         if quick and N == 2 and len(sh) != 2 and len(sh) != 3: continue
                         cs.append('%s ; xfv %d %d' % (h, n, N))
@@ -121,7 +124,7 @@ class Check(DiffCheck):
                         for op in ('mtov', 'mfromv', 'ptov', 'pfromv'):
                             cs.append('%s ; %s %s %d' % (h, op, shape_s(ds), n))
                 if own:
-                    for op in ('popf', 'popb', 'clear', 'pushb 2', 'pushf 2', 'pushb 0', 'pushba 3', 'pushfa 3'):
+                    for op in ('popf', 'popb', 'clear', 'pushb 2', 'pushf 2', 'pushb 0', 'pushba 3', 'pushfa 3', 'xfo 18446744073709551615 0 0', 'xbo 18446744073709551615 2 1'):
                         cs.append('%s ; %s' % (h, op))
         # small capacity / small allocator chunk: the allocating paths and their failure branches
         for sh in shapes:
@@ -194,11 +197,13 @@ class Check(DiffCheck):
     def _rand_op(self, rng, own, S, ne):
         names = ['sum', 'shrink', 'xf', 'xfb', 'xfv', 'xfc', 'xb', 'xbb', 'xbv', 'xbc', 'slice', 'mto', 'mfrom',
                  'mtov', 'mfromv', 'pto', 'ptov', 'pfromv', 'xf', 'xb', 'slice', 'ptov', 'mfromv']
-        names += ['trunc', 'pushb', 'pushf', 'pushba', 'pushfa', 'popf', 'popb', 'clear', 'pushb', 'pushba', 'trunc'] if own else ['shrinklt']
+        names += ['trunc', 'pushb', 'pushf', 'pushba', 'pushfa', 'popf', 'popb', 'clear', 'pushb', 'pushba', 'trunc', 'xfo', 'xbo'] if own else ['shrinklt']
         op = rng.choice(names)
         if op in ('sum', 'popf', 'popb', 'clear'): return op
         if op in ('xfv', 'xbv'):
             return '%s %d %d' % (op, self._rand_count(rng, S, False), rng.choice([0, 0, 1, 2, ne, ne + 1, rng.randrange(0, 8)]))
+        if op in ('xfo', 'xbo'):
+            return '%s %d %d %d' % (op, self._rand_count(rng, S, False), rng.choice([0, 0, 1, 3]), rng.choice([0, 0, 1, 4]))
         if op == 'slice':
             return 'slice %d %d %d' % (self._rand_count(rng, S, False), rng.randrange(0, S + 3), rng.choice([0, 0, 1, 2, ne, ne + 1, rng.randrange(0, 8)]))
         if op in ('mtov', 'mfromv', 'ptov', 'pfromv'):
@@ -288,7 +293,7 @@ class Check(DiffCheck):
         def dst_flat(): return b''.join(b for (_, b) in r['dst'])
         def dst_orig():
             return b''.join(pattern(int(i), len(b)) for (i, b) in r['dst'])
-        if op in ('trunc', 'pushb', 'pushf', 'pushba', 'pushfa', 'popf', 'popb', 'clear') and not own:
+        if op in ('trunc', 'pushb', 'pushf', 'pushba', 'pushfa', 'popf', 'popb', 'clear', 'xfo', 'xbo') and not own:
             return None if (ret == NA and F2 == F) else 'not-applicable operation changed something'
         if op == 'shrinklt' and own:
             return None if (ret == NA and F2 == F) else 'not-applicable operation changed something'
@@ -346,6 +351,13 @@ class Check(DiffCheck):
                 if G != F[:k] or F2 != F[k:]: return 'extracted / remaining bytes differ from take/drop %d' % k
             else:
                 if G != F[S - k:] or F2 != F[:S - k]: return 'extracted / remaining bytes differ from the last / first bytes'
+        elif op in ('xfo', 'xbo'):
+            k = min(n, S)
+            if ret != k: return 'returned %d, flat string gives %d (the destination vector has a slot for every element)' % (ret, k)
+            if op == 'xfo':
+                if G != F[:k] or F2 != F[k:]: return 'destination / remaining bytes differ from take/drop %d' % k
+            else:
+                if G != F[S - k:] or F2 != F[:S - k]: return 'destination / remaining bytes differ from the last / first bytes'
         elif op in ('xfc', 'xbc'):
             front = (op == 'xfc')
             if ret == 0:
